@@ -40,7 +40,7 @@ func TestC02(t *testing.T) {
 	t.Run("band", func(t *testing.T) { boundaryBand(t, "C02", true) })
 	t.Run("residues", func(t *testing.T) { residueSweep(t) })
 	t.Run("random", func(t *testing.T) {
-		rapid.Check(t, func(t *rapid.T) {
+		checkCases(t, st, func(t *rapid.T) {
 			runHistoryCase(t, "C02", c02Profile, c02NonTrivial)
 		})
 	})
